@@ -1132,6 +1132,7 @@ BUILTINS = {
     "numpy.zeros": np_zeros,
     "numpy.zeros_like": np_zeros_like,
     "numpy.full": np_full,
+    "re.compile": lambda ex, pattern, *a: RegexV(pattern),
 }
 
 
